@@ -34,7 +34,8 @@
     * watch request    → ClientConnectionError/TimeoutError swallowed the same way; 429 and HTTP 410 (too
                          old) → `infinite_watch` swallows (`except APIClientError: if ex.status != 410: raise`)
                          → backoff → re-list; every other API error propagates out of `infinite_watch`
-    * pause noticed    → the response is closed by the waiter's callback; the `while` ends; `return`;
+    * pause noticed    → a listing in progress is cancelled (it runs as a task raced with the pause-waiter), a pending
+                         watch request is cancelled, an open response is closed by the waiter's callback; `return`;
                          after the backoff `streaming_block` blocks until un-paused; then a new
                          `continuous_watch`, i.e. a fresh listing
 -/
@@ -101,8 +102,8 @@ inductive Act where
   | respond
   | failReq (k : ReqFail)
   | retry       -- an attempt failed with a retryable error and its backoff is over: `api.request` re-sends it.
-                -- For a listing nothing stops this loop on a pause: `fetching.list_objs` has no stopper
-                -- (finding C19-F2). A watch request is cancelled when the pause is noticed (`notice`).
+                -- Both kinds of request are abandoned when a pause is noticed (`notice`): the watch request by the
+                -- stopper's callback (d8da165), the listing by the race with the pause-waiter (64c8f5e).
   -- lines and endings of the open watch response
   | deliver                 -- the next stored version after what was sent so far
   | bookmark (b : Nat)
@@ -177,7 +178,8 @@ def step (w : World) : Act → World
   | .notice =>
       if w.paused then
         match w.phase with
-        | .listing => { w with pauseSeen := true }               -- `fetching.list_objs` has no stopper: the listing goes on
+        | .listing => toBackoff { w with pauseSeen := true }     -- the listing runs as a task raced with the pause-waiter:
+                                                                 -- it is cancelled (with its retries), `return` (kopf 64c8f5e)
         | .connecting => toBackoff { w with pauseSeen := true }  -- the pending watch request (also one sleeping between
                                                                  -- its retries) is cancelled by the stopper's callback,
                                                                  -- swallowed by `api.stream`; the loop ends (kopf d8da165)
